@@ -3,7 +3,6 @@
 package worldk
 
 import (
-	"strings"
 	"context"
 	"crypto"
 	"crypto/rsa"
@@ -13,6 +12,7 @@ import (
 	"fmt"
 	"math/big"
 	"os"
+	"strings"
 	"testing"
 	"testing/synctest"
 	"time"
@@ -227,6 +227,10 @@ func c20(r *core.Run) {
 	rpcFault := func() {
 		if r.Chance(25, "rpc-fault?") {
 			k.FailAt = k.Calls + r.Intn(12, "fail-at")
+		} else if !noDeadline && r.Chance(12, "get-hangs?") {
+			// a poll that the service never answers: it ends with the caller's deadline, and so
+			// does the operation
+			k.HangGets = 1 << 20
 		}
 	}
 	switch op {
